@@ -193,14 +193,21 @@ Definition galloping_search_core (start : N) : result N :=
     let '(idx, i_prev) := r in
     bisect 70 i_prev (idx + 1).
 
-(* wrappers: return i, (array[i] & mask) == (target & mask) *)
-Definition with_found (r : result N) : result (N * bool) :=
-  do i <- r; do v <- rd 0 A i; Done (i, N.land v mask =? target).
+(* wrappers (after the fix of D8/D14):
+     if i >= len: return i, False
+     _search(array, target, mask, &i, len)
+     return i, (i < len and (array[i] & mask) == (target & mask)) *)
+Definition with_found (start : N) (core : N -> result N) : result (N * bool) :=
+  if n <=? start then Done (start, false)
+  else
+    do i <- core start;
+    if i <? n then do v <- rd 0 A i; Done (i, N.land v mask =? target)
+    else Done (i, false).
 End Search.
 Definition binary_search (a : list N) (target mask start : N) : result (N * bool) :=
-  let A := mem_of_list a in with_found A target mask (binary_search_core A target mask start).
+  let A := mem_of_list a in with_found A target mask start (binary_search_core A target mask).
 Definition galloping_search (a : list N) (target mask start : N) : result (N * bool) :=
-  let A := mem_of_list a in with_found A target mask (galloping_search_core A target mask start).
+  let A := mem_of_list a in with_found A target mask start (galloping_search_core A target mask).
 
 (* =========================== popcount.pyx =========================== *)
 Definition popcount64 (a : list N) : list N := map popcount a.
